@@ -21,10 +21,16 @@ EXTENDS Naturals, Sequences, FiniteSets, TLC, Json, IOUtils
 
 (* an item: [text, cls, ranges] ; cls \in range | single | list | access | stride | stridelegacy | bad *)
 I(text, cls, ranges) == [text |-> text, cls |-> cls, ranges |-> ranges]
+Odd(it) == [text |-> it.text, cls |-> it.cls, ranges |-> it.ranges, odd |-> TRUE]
+IsOdd(it) == "odd" \in DOMAIN it /\ it.odd
 RangeItems ==
   { I("2..=3", "range", << <<2, 3>> >>), I("5", "single", << <<5, 5>> >>),
     I("[2..=3]", "list", << <<2, 3>> >>), I("[5, 2]", "list", << <<5, 5>>, <<2, 2>> >>),
     I("[6..=6, 3]", "list", << <<6, 6>>, <<3, 3>> >>), I("[7, 0..=0]", "list", << <<7, 7>>, <<0, 0>> >>),
+    (* decimal literals with leading zeros (Rust has no C-style octal: 010 is ten); odd, so acceptance is left open, but an
+       accepted one must mean the decimal number *)
+    Odd(I("010..=011", "range", << <<10, 11>> >>)), Odd(I("012", "single", << <<12, 12>> >>)),
+    Odd(I("[010, 02..=03]", "list", << <<10, 10>>, <<2, 3>> >>)), Odd(I("002..=0003", "range", << <<2, 3>> >>)),
     I("2..3", "bad", <<>>), I("2..", "bad", <<>>), I("..=3", "bad", <<>>), I("2..=", "bad", <<>>),
     I("[2..3]", "bad", <<>>), I("2..=3..=4", "bad", <<>>), I("2=3", "bad", <<>>), I("2...3", "bad", <<>>) }
 AccessItems == { I("r", "access", <<>>), I("w", "access", <<>>), I("rw", "access", <<>>),
@@ -32,6 +38,7 @@ AccessItems == { I("r", "access", <<>>), I("w", "access", <<>>), I("rw", "access
 (* the value of a stride item rides in its `ranges` field *)
 StrideItems == { I("stride = 2", "stride", << <<2, 2>> >>), I("stride: 2", "stride", << <<2, 2>> >>), I("stride = 4", "stride", << <<4, 4>> >>),
                  I("stride = 1", "stride", << <<1, 1>> >>),  \* smaller than the two-bit ranges: semantically invalid there, in ANY order
+                 Odd(I("stride = 010", "stride", << <<10, 10>> >>)),
                  I("stride 2", "bad", <<>>), I("stride =", "bad", <<>>), I("stride = x", "bad", <<>>), I("stride", "bad", <<>>),
                  I("step = 2", "bad", <<>>) }
 
@@ -64,7 +71,7 @@ GrammarVerdict(g) ==
   ELSE IF ~HeadMatches(g.head, RangeItem(g.items)) THEN "must_reject"
   ELSE IF HasStride(g.items) /\ ~g.isarray THEN "must_reject"
   ELSE IF Cardinality({k \in 1..Len(g.items) : g.items[k].cls = "stride"}) > 1 THEN "unspecified"
-  ELSE IF Canonical(g.items) /\ ~Trailing(g) /\ SplitAt(g) = 0 THEN "must_accept"
+  ELSE IF Canonical(g.items) /\ ~Trailing(g) /\ SplitAt(g) = 0 /\ ~(\E k \in 1..Len(g.items) : IsOdd(g.items[k])) THEN "must_accept"
   ELSE "unspecified"
 (* the MEANING of an attribute does not depend on the order of its items: whenever every item is well formed, there is
    exactly one range item matching the head, and access / stride occur at most once, the attribute -- if it is accepted
